@@ -135,6 +135,17 @@ def gen(tier, rng, boost=1):
             us = list(tx.encode("utf-8")) if w == "8" else ustr(tx)
             ops.append(f"num.policy {src} {t} {o} {m} {units(w, us)}")
     ops += gen_c04_jsonxml(tier, rng, boost)
+    # ---- the same conversion carried by a MsgPack document: every integer format of a value x every arithmetic target, through the
+    # memory reader AND the stream reader (two separately written copies of ReadInteger), both overflow policies
+    from . import mpgen as M
+    vals = sorted(set(M.INT_THRESHOLDS) | set(range(-140, 140)) | {rng.randrange(-2 ** 63, 2 ** 64) for _ in range(100 if tier == "quick" else 5000)})
+    for v in vals:
+        if not -2 ** 63 <= v < 2 ** 64:
+            continue
+        for f in M.int_formats(v):
+            for T in (M.INT_TARGETS if tier == "thorough" else rng.sample(M.INT_TARGETS, 3)):
+                for src in ("mem", "stream"):
+                    ops.append(M.read_op(src, rng.choice(["throw", "skip"]), "throw", T, rng.choice([0, 0, 254, 255]), M.enc_int(v, f) + bytes([0xC3])))
     return ops
 
 
